@@ -161,7 +161,15 @@ impl fmt::Display for Expr {
                     }
                     recurse(&binop.left, fmt, succ)?;
                     write!(fmt, "{}", binop.op.symbol())?;
-                    recurse(&binop.right, fmt, op_prec)?;
+                    // `^` is right-associative. Every other operator is
+                    // left-associative or does not chain, so a right operand
+                    // of the same level needs parentheses.
+                    let right_prec = if binop.op == BinOpType::Pow {
+                        op_prec
+                    } else {
+                        succ
+                    };
+                    recurse(&binop.right, fmt, right_prec)?;
                     if prec < op_prec {
                         write!(fmt, ")")?;
                     }
@@ -223,7 +231,8 @@ impl fmt::Display for Expr {
                         write!(fmt, "(")?;
                     }
                     write!(fmt, "{} of ", property)?;
-                    recurse(expr, fmt, Precedence::Div)?;
+                    // `of` takes a juxtaposition as its operand.
+                    recurse(expr, fmt, Precedence::Mul)?;
                     if prec < Precedence::Add {
                         write!(fmt, ")")?;
                     }
